@@ -14,7 +14,7 @@ from .arrdom import AArr
 from .evalrun import run_pipeline
 
 INFO = {
-    "explanation": "The composition is decided, not the numbers. (R01.1) typestate of panoptic_evaluate over the isinstance cascade: for each of the three input classes every exit returns a PanopticaResult, the trailing RuntimeError is unreachable, each stage is called only in a state it admits, stages occur in the order approximate < match < evaluate; (R01.2) panoptic_evaluate is run abstractly with the stages as observation points: the whole-pair crop is computed from both arrays and applied before the stages, each stage receives the pair produced by its predecessor, the instance metrics / decision metric / decision threshold / global metrics / edge-case handler reach the parameter of the same role, the result is built from the evaluated pair's fields uncrossed, calculate_all runs iff result_all; (R01.3) delegated component rules on the same tree: candidate discovery, best-first order and the inclusive direction-aware threshold (R03.1-R03.4), tp/list coherence and derived formulas (R02.1-R02.2), backend dispatch (R05.1-R05.3), kernels and label selection (R06.1-R06.6). Further delegated on the same tree: pair-code and crop containers (R09.1/R09.2), relabelling (R04.x), ASSD chain and distance reconstruction (R07.x), zero-instance helper and result constructor (R08.4/R08.5), reducers and counting (R02.4/R02.5). Also delegated: R03.7 (matcher -> candidate call wiring), R10.3 (crop mask), R05.6 (dtype of the semantic arrays before labelling).",
+    "explanation": "The composition is decided, not the numbers. (R01.1) typestate of panoptic_evaluate over the isinstance cascade: for each of the three input classes every exit returns a PanopticaResult, the trailing RuntimeError is unreachable, each stage is called only in a state it admits, stages occur in the order approximate < match < evaluate; (R01.2) panoptic_evaluate is run abstractly with the stages as observation points: the whole-pair crop is computed from both arrays and applied before the stages, each stage receives the pair produced by its predecessor, the instance metrics / decision metric / decision threshold / global metrics / edge-case handler reach the parameter of the same role, the result is built from the evaluated pair's fields uncrossed, calculate_all runs iff result_all; (R01.3) delegated component rules on the same tree: candidate discovery, best-first order and the inclusive direction-aware threshold (R03.1-R03.4), tp/list coherence and derived formulas (R02.1-R02.2), backend dispatch (R05.1-R05.3), kernels and label selection (R06.1-R06.6). Further delegated on the same tree: pair-code and crop containers (R09.1/R09.2), relabelling (R04.x), ASSD chain and distance reconstruction (R07.x), zero-instance helper and result constructor (R08.4/R08.5), reducers and counting (R02.4/R02.5). Also delegated: R03.7 (matcher -> candidate call wiring), R10.3 (crop mask), R05.6 (dtype of the semantic arrays before labelling). Further delegated after the third seed round: R05.4/R05.5 (dtype selector, stateless approximator), R10.1/R10.2/R10.4 (crop once, bounding box, pair constructor), R09.6 (label enumeration), R15.8 (no in-place write into received arrays); R01.2 is run for every concrete matcher/approximator class with opaque configuration.",
     "trusted_base": ["cc3d / scipy / skimage kernels", "Python semantics of the modelled AST subset", "the trusted bases of the delegated rules (C02, C03, C05, C06)"],
     "assumptions": [],
     "not_decided": ["numerical equality with a reference implementation on any input (needs execution)", "connected-component labelling, distance transforms, skeletons (C extensions)"],
